@@ -106,7 +106,22 @@ func (c *qctx) genQ(t *rapid.T, milli int) QV {
 		q.Pad = rapid.IntRange(0, 397).Draw(t, "padn")
 	}
 	switch {
-	case milli == 1000 || milli == 0:
+	case milli == 0:
+		// zero, or (one choice per case, so that such weights are equal among themselves) a positive weight below the
+		// grid: 0.0001 ... 0.00009. It is not zero: the range takes part, outranked by every weight of the grid (r7)
+		gt, ok := c.tails[0]
+		if !ok {
+			if rapid.IntRange(0, 3).Draw(t, "tiny-positive") == 0 {
+				gt[1] = rapid.SampledFrom([]string{"1", "5", "9", "04", "09"}).Draw(t, "tiny")
+			}
+			c.tails[0] = gt
+		}
+		if gt[1] != "" {
+			q.Tail = gt[1]
+		} else {
+			q.Dot = rapid.IntRange(0, 3).Draw(t, "dot") == 0
+		}
+	case milli == 1000:
 		q.Dot = rapid.IntRange(0, 3).Draw(t, "dot") == 0
 	default:
 		gt, ok := c.tails[milli]
